@@ -2,6 +2,7 @@
    The independent decoder is Model/Outline.v, fed with raw table bytes and tied to the Go code by the correspondence
    check of every run.  The theorems below are what makes it a specification: they hold for ALL inputs.  Property
    theorems only. *)
+From TV Require Import Model.VarNorm Model.VarStore Model.GvarDeltas Proofs.VarNorm Proofs.VarStore Proofs.GvarDeltas.
 From TV Require Import Model.Outline Spec.Outline Proofs.Outline Proofs.OutlineBox.
 From TV Require Import Model.Composite Spec.Composite Proofs.Composite.
 From TV Require Import Model.Charstring Proofs.Charstring Proofs.CharstringBounds.
@@ -285,6 +286,157 @@ Theorem v_origin_from_vmtx : forall f gid hdr nlh nlv,
           match hdr with [] => 0 | _ => Z.max (i16_at 4 hdr) (i16_at 8 hdr) end + lsb_spec (vf_vmtx f) nlv gid, true).
 Proof. exact v_origin_vmtx_lemma. Qed.
 Print Assumptions v_origin_from_vmtx.
+
+(* ---------------------------------------------------------------------------------------------------------------- *)
+(* variable fonts: coordinate normalisation (Model/VarNorm.v: fvar.normalizeCoordinates, Font.NormalizeVariations)        *)
+
+(* NormalizeVariations on ARBITRARY axis records, segment maps and finite coordinates: the documented panic (fewer
+   coordinates than axes) is the only one, there is no loop to run out of fuel, and a result has one value per
+   coordinate (Err = a float division by zero on an ill-formed axis, whose converted value Go leaves to the platform) *)
+Theorem normalize_total : forall axes maps coords,
+  match normalize axes maps coords with
+  | Panic _ => (length coords < length axes)%nat
+  | OutOfFuel => False
+  | Ok r => length r = length coords
+  | Err _ => True
+  end.
+Proof. exact normalize_total_lemma. Qed.
+Print Assumptions normalize_total.
+
+(* fvar stage: the default position of a well-formed axis (minimum <= default <= maximum as float32) is mapped to 0 *)
+Theorem norm_default_is_zero : forall a, wf_axis a -> norm_axis a (ax_def a) = Ok 0.
+Proof. exact norm_axis_default_lemma. Qed.
+Print Assumptions norm_default_is_zero.
+
+(* avar stage, every well-formed segment map (entries -1 -> -1, 0 -> 0, 1 -> 1, fromCoordinates increasing, toCoordinates
+   non-decreasing, all within [-1, 1]) and every coordinate of [-1, 1] (2.14 integers): the result stays in [-1, 1] *)
+Theorem avar_in_range : forall m v, wf_map m = true -> -16384 <= v <= 16384 -> -16384 <= avar_map m v <= 16384.
+Proof. exact avar_in_range_lemma. Qed.
+Print Assumptions avar_in_range.
+
+(* every entry of the table is honoured exactly: fromCoordinate |-> toCoordinate ... *)
+Theorem avar_honours_entries : forall m x y, wf_map m = true -> In (x, y) m -> avar_map m x = y.
+Proof. exact avar_knots_lemma. Qed.
+Print Assumptions avar_honours_entries.
+
+(* ... in particular min |-> -1, default |-> 0, max |-> 1 survive the avar stage *)
+Theorem avar_fixes_anchors : forall m, wf_map m = true ->
+  avar_map m (-16384) = -16384 /\ avar_map m 0 = 0 /\ avar_map m 16384 = 16384.
+Proof. exact avar_anchors_lemma. Qed.
+Print Assumptions avar_fixes_anchors.
+
+(* and the map is monotone in the coordinate, roundings included *)
+Theorem avar_monotone : forall m v w, wf_map m = true -> -16384 <= v -> v <= w -> w <= 16384 -> avar_map m v <= avar_map m w.
+Proof. exact avar_monotone_lemma. Qed.
+Print Assumptions avar_monotone.
+
+(* ---------------------------------------------------------------------------------------------------------------- *)
+(* variable fonts: ItemVariationStore (Model/VarStore.v: evaluate, Evaluate, GetDelta, HVAR/VVAR advances, MVAR)          *)
+
+(* the per-axis scalar: 1 at the peak, 1 for a neutral (peak 0) or invalid axis record (start > peak, peak > end,
+   start < 0 < end: ignored as the OpenType algorithm demands), 0 outside ]start, end[ *)
+Theorem region_axis_rules : forall r c,
+  axis_eval r (ra_peak r) = f32_one
+  /\ (ra_peak r = 0 -> axis_eval r c = f32_one)
+  /\ (ra_peak r < ra_start r \/ ra_end r < ra_peak r \/ (ra_start r < 0 < ra_end r) -> axis_eval r c = f32_one)
+  /\ (active_axis r -> c <= ra_start r \/ ra_end r <= c -> c <> ra_peak r -> axis_eval r c = 0).
+Proof.
+  intros r c. exact (conj (axis_eval_at_peak r) (conj (axis_eval_neutral r c) (conj (axis_eval_invalid r c) (axis_eval_outside r c)))).
+Qed.
+Print Assumptions region_axis_rules.
+
+(* the region scalar is the (float32, left to right) product of the axis scalars over ALL axes of the region, a missing
+   coordinate counting as 0 *)
+Theorem region_scalar_is_product : forall ra cs acc,
+  region_eval_from ra cs acc
+  = fold_left f32_mul (map (fun i => axis_eval (nth i ra (mkRA 0 0 0)) (nth i cs 0)) (seq 0 (length ra))) acc.
+Proof. exact region_eval_is_fold. Qed.
+Print Assumptions region_scalar_is_product.
+
+(* a store whose regions all have an active axis (non-zero peak, valid record) yields the delta 0 at the default position:
+   for every delta-set index, with all coordinates 0 - or with no coordinates at all *)
+Theorem store_delta_zero_at_default : forall s o i cs,
+  Forall (fun c => c = 0) cs -> Forall (Exists active_axis) (ivs_regions s) -> store_indices_ok s -> 0 <= o ->
+  get_delta s o i cs = 0.
+Proof. exact get_delta_default. Qed.
+Print Assumptions store_delta_zero_at_default.
+
+(* hence Face.HorizontalAdvance of a variable face at the default position is the static advance float32(base) - the
+   value advance_rule_total describes - for every glyph, with or without an advance width mapping *)
+Theorem advance_at_default_is_static : forall base h gid cs n,
+  Z.abs base < 2 ^ 24 -> Forall (fun c => c = 0) cs -> Forall (Exists active_axis) (ivs_regions (fst h)) ->
+  store_indices_ok (fst h) -> 0 <= gid -> Forall (fun oi => 0 <= fst oi) (snd h) ->
+  h_advance_var base h gid cs n = f32_of_int base.
+Proof. exact h_advance_default. Qed.
+Print Assumptions advance_at_default_is_static.
+
+(* ---------------------------------------------------------------------------------------------------------------- *)
+(* variable fonts: gvar (Model/GvarDeltas.v: unpackDeltas, parsePointNumbers, inferDelta, applyDeltasToPoints)             *)
+
+(* unpackDeltas on ARBITRARY data and any declared count: an error or exactly that many deltas; never a panic *)
+Theorem unpack_deltas_total : forall data total, 0 <= total ->
+  match unpack_deltas data total with
+  | Ok l => zlen l = total
+  | Err _ => True
+  | _ => False
+  end.
+Proof. exact unpack_deltas_total_lemma. Qed.
+Print Assumptions unpack_deltas_total.
+
+(* parsePointNumbers on ARBITRARY bytes: an error, "all points", or the declared count of point numbers plus less than
+   one run (the last run is not cut: at most 127 numbers more); never a panic *)
+Theorem point_numbers_total : forall data, bytes_ok data ->
+  match parse_point_numbers data with
+  | Ok (None, _) => True
+  | Ok (Some l, _) => exists count, 0 <= count /\ count <= zlen l < count + 128
+  | Err _ => True
+  | _ => False
+  end.
+Proof. exact parse_point_numbers_total_lemma. Qed.
+Print Assumptions point_numbers_total.
+
+(* inferDelta, the OpenType rule outside the span of the two touched neighbours (t = coordinate of the untouched point,
+   p / n = coordinates of the previous / next touched point, pd / nd their deltas; all float32):
+   coincident neighbours -> their common delta, or 0 when the deltas differ;
+   at or below the smaller coordinate -> the delta of the neighbour that has it; at or above the larger -> likewise *)
+Theorem inferred_delta_rule : forall t p n pd nd,
+  infer_delta t p p pd nd = (if pd =? nd then pd else 0)
+  /\ (p <> n -> t <= Z.min p n -> infer_delta t p n pd nd = if p <? n then pd else nd)
+  /\ (p <> n -> Z.min p n < t -> Z.max p n <= t -> infer_delta t p n pd nd = if n <? p then pd else nd).
+Proof. intros t p n pd nd. exact (conj (infer_same_neighbours t p pd nd) (conj (infer_below t p n pd nd) (infer_above t p n pd nd))). Qed.
+Print Assumptions inferred_delta_rule.
+
+(* the point-by-point rule the oracle applies to the library's output never touches a touched point's delta *)
+Theorem iup_keeps_touched_points : forall o c, Forall2 (fun d' d => d_exp d = true -> d' = d) (iup_contour o c) c.
+Proof. exact iup_contour_touched. Qed.
+Print Assumptions iup_keeps_touched_points.
+
+(* a glyph all of whose tuples have scalar 0 - which is the case at the default position - keeps its static points *)
+Theorem zero_scalars_leave_outline : forall orig ends coords shared ts pts,
+  Forall (fun ht => tuple_scalar coords shared (fst ht) = 0) ts -> apply_tuples orig ends coords shared ts pts = Ok pts.
+Proof. exact apply_tuples_zero. Qed.
+Print Assumptions zero_scalars_leave_outline.
+
+(* a symmetric table with slope 1/2 next to -1 and 1: -1 + 2^-14 lands on an exact half and is rounded away from zero, as
+   is its opposite (fix 55c09bc); a store with one region (peak 1): half way the delta 10 counts half; without coordinates
+   it does not count (fix e59fef9); an invalid axis record is ignored (fix 53238c5); packed deltas: a run of two
+   bytes, a run of one zero, one word; point numbers 1, 3 *)
+Example variable_font_example :
+  let m := [(-16384, -16384); (-8192, -12288); (0, 0); (8192, 12288); (16384, 16384)] in
+  wf_map m = true /\ avar_map m (-16383) = -16384 /\ avar_map m 16383 = 16384 /\ avar_map m (-4096) = -6144
+  /\ wf_axis (mkAxis 0 (f1616 0) (f1616 26214400) (f1616 58982400))
+  /\ norm_axis (mkAxis 0 (f1616 0) (f1616 26214400) (f1616 58982400)) (f1616 42598400) = Ok 8192
+  /\ normalize [mkAxis 0 0 0 f32_one] [] [] = Panic 1
+  /\ (let s := mkIVS 1 1 [[mkRA 0 16384 16384]] [mkIVD [0] [[10]]] in
+      active_axis (mkRA 0 16384 16384) /\ get_delta s 0 0 [8192] = 5 * f32_one /\ get_delta s 0 0 [] = 0
+      /\ get_delta s 0 0 [16384] = 10 * f32_one)
+  /\ axis_eval (mkRA (-16384) 8192 16384) 0 = f32_one
+  /\ unpack_deltas [1; 5; 251; 128; 64; 1; 0] 4 = Ok [5; -5; 0; 256]
+  /\ parse_point_numbers [2; 1; 1; 2; 9] = Ok (Some [1; 3], [9])
+  /\ infer_delta (15 * f32_one) (10 * f32_one) (20 * f32_one) 0 (8 * f32_one) = 4 * f32_one.
+Proof.
+  cbv zeta. repeat split; try (vm_compute; reflexivity); try (vm_compute; discriminate); try (cbn; lia).
+Qed.
 
 (* ---- non-vacuity ---- *)
 (* a contour starting with two off-curve points, and a second all-off-curve contour *)
